@@ -1367,6 +1367,16 @@ func c07Append(c *Ctx, v *allocVec) {
 // c07ByteArrays: a [N]byte field given payloads shorter than, as long as and longer than N (up to a megabyte): an error or a
 // value, the fields next to the array untouched either way, nothing written outside the array
 func c07ByteArrays(c *Ctx) {
+	for _, field := range []int{2, 4} {
+		for _, n := range []int{0, 1, 3, 4, 5, 8, 15, 16, 17, 40, 4096, 1 << 20} {
+			c07ByteArray(c, field, n)
+		}
+	}
+}
+
+// c07ByteArray: one payload length into one byte-array field (alone replayable: a payload that overruns the array far
+// enough takes the process down, one that overruns it by a byte only touches the guard next to it)
+func c07ByteArray(c *Ctx, field, n int) {
 	type tgt struct {
 		G1 [8]byte
 		A  [4]byte
@@ -1375,24 +1385,20 @@ func c07ByteArrays(c *Ctx) {
 		G3 [8]byte
 	}
 	guard := [8]byte{0xa5, 0xa5, 0xa5, 0xa5, 0xa5, 0xa5, 0xa5, 0xa5}
-	for _, field := range []int{2, 4} {
-		for _, n := range []int{0, 1, 3, 4, 5, 8, 15, 16, 17, 40, 4096, 1 << 20} {
-			in := append(uvarintBytes(uint64(field<<3|2)), uvarintBytes(uint64(n))...)
-			in = append(in, bytes.Repeat([]byte{0x5a}, n)...)
-			k := protoCase{What: fmt.Sprintf("byte array field %d given %d bytes", field, n)}
-			v := &tgt{G1: guard, G2: guard, G3: guard}
-			var err error
-			c.Case()
-			c.Eval(1)
-			if p := protect(func() { err = proto.Unmarshal(in, v) }); p != "" {
-				c.Diverge("C07", "proto.Unmarshal(byte array, payload of another length)", "error or value, no panic", p, "", k)
-				continue
-			}
-			if v.G1 != guard || v.G2 != guard || v.G3 != guard || (field == 2 && v.B != [16]byte{}) || (field == 4 && v.A != [4]byte{}) {
-				c.Diverge("C07", "proto.Unmarshal(byte array, payload of another length)", "the neighbouring fields untouched",
-					fmt.Sprintf("%x %x %x %x %x err=%v", v.G1, v.A, v.G2, v.B, v.G3, err), "", k)
-			}
-		}
+	in := append(uvarintBytes(uint64(field<<3|2)), uvarintBytes(uint64(n))...)
+	in = append(in, bytes.Repeat([]byte{0x5a}, n)...)
+	k := protoCase{What: fmt.Sprintf("byte array field %d given %d bytes", field, n)}
+	v := &tgt{G1: guard, G2: guard, G3: guard}
+	var err error
+	c.Case()
+	c.Eval(1)
+	if p := protect(func() { err = proto.Unmarshal(in, v) }); p != "" {
+		c.Diverge("C07", "proto.Unmarshal(byte array, payload of another length)", "error or value, no panic", p, "", k)
+		return
+	}
+	if v.G1 != guard || v.G2 != guard || v.G3 != guard || (field == 2 && v.B != [16]byte{}) || (field == 4 && v.A != [4]byte{}) {
+		c.Diverge("C07", "proto.Unmarshal(byte array, payload of another length)", "the neighbouring fields untouched",
+			fmt.Sprintf("%x %x %x %x %x err=%v", v.G1, v.A, v.G2, v.B, v.G3, err), "", k)
 	}
 }
 
@@ -1558,7 +1564,10 @@ func c07Replay(c *Ctx, raw stdjson.RawMessage) {
 			return
 		}
 		if strings.HasPrefix(k.What, "byte array field") {
-			c07ByteArrays(c)
+			var field, n int
+			if _, err := fmt.Sscanf(k.What, "byte array field %d given %d bytes", &field, &n); err == nil {
+				c07ByteArray(c, field, n)
+			}
 			return
 		}
 		if k.Alloc != nil {
